@@ -147,6 +147,10 @@ fn main() {
                 let j = (next(&mut x) % (i as u64 + 1)) as usize;
                 order.swap(i, j);
             }
+            // --only R: this process sees regime R alone (a cumulative statistic is not diluted by other regimes)
+            if let Some(r) = arg(&args, "--only").and_then(|s| s.parse::<usize>().ok()) {
+                order = vec![r % 7];
+            }
             for &r in &order {
                 for _ in 0..per {
                     let n = 3 + (next(&mut x) % 10) as usize;
@@ -179,7 +183,7 @@ fn main() {
                     }
                 }
             }
-            println!("RACER regime seed={} regimes=7 per_regime={} cases={} calls={} mismatches={}", seed, per, cases.len(), calls, mismatches);
+            println!("RACER regime seed={} regimes={} per_regime={} cases={} calls={} mismatches={}", seed, order.len(), per, cases.len(), calls, mismatches);
         }
         "run" | "selftest" => {
             let threads: usize = arg(&args, "--threads").and_then(|s| s.parse().ok()).unwrap_or(8);
